@@ -16,26 +16,31 @@ from gen import models  # noqa: E402
 from gen.enums import E  # noqa: E402
 
 META = {
-    "technique": "Lean 4 proof: sound abstract dataflow analysis (read-before-write / may-write / must-determine) of the "
+    "technique": "Lean 4 proof: sound abstract dataflow analysis (read-before-determined / may-write / must-determine) of the "
                  "clang-translated call skeletons of mj_step / mj_forward / mj_inverse over a stage footprint table, "
-                 "non-interference theorem for every interpretation respecting the table; the table is validated against "
-                 "the real engine by per-stage write / poison tests; property oracle = bitwise poison differentials",
-    "text": "Proved (all guards, integrators, loop trip counts, interpretations): abs_sound (non-interference: data agreeing on "
-            "I ⊇ analysed read-before-write set run in lock step and agree on I ∪ determined groups), frame_sound; the "
-            "read-before-write sets of the inlined skeletons of mj_forward / mj_step (all integrators) / mj_inverse, computed by "
-            "the kernel on the programs regenerated from engine_forward.c / engine_inverse.c on every run, lie inside the "
-            "integration-state groups derived from mjSTATE_INTEGRATION + mj_stateElemPtr (plus allocation constants, qacc for "
-            "mj_inverse); hence forward/step/inverse outputs of two mjData with equal integration state agree on every "
-            "determined group (corollaries for copyData / copyState / setState receivers). Sleeping models: the analysis shows "
-            "(and the oracle confirms) that derived arrays of sleeping trees are latent state: only mj_copyData copies are "
-            "claimed there.",
-    "note": "footprints are per stage function and per field group, hand-written (lean/MjProof/Model/Footprint.lean) and only "
-            "validated dynamically (V1: changed fields ⊆ may-write groups; V2: non-read groups poisoned ⇒ read ∪ determined "
-            "groups bitwise equal) on generated models without flex / plugins / user callbacks; statics reachable only inside "
-            "larger calls (mj_advance, mj_discreteAcc, stack bookkeeping) are validated through the whole-function "
-            "differentials only; lazily evaluated caches (energy, subtree velocities, rne-post) are compared as "
-            "flag + (cache if flag set); diagnostics (timers, warnings, solver statistics, maxuse_*) are excluded; memory "
-            "exhaustion paths are outside the model.",
+                 "non-interference theorem for every interpretation of the stages respecting the table (data-dependent guards, "
+                 "while-loops with fuel, ret/err scoping included); the table is validated against the real engine by per-stage "
+                 "write / poison tests; property oracle = bitwise poison differentials on the real engine",
+    "text": "Proved once, for every interpretation / model-constant environment / fuel: Prog.abs_sound (two data agreeing on I ⊇ the "
+            "analysed read-before-determined set run in lock step and agree afterwards on I and on the determined groups) and "
+            "Prog.frame_sound.  Kernel-evaluated on the programs regenerated from engine_forward.c / engine_inverse.c on every "
+            "run: the inputs of mj_forward, of mj_step (each of the 4 integrators and the unknown-integrator join) and of mj_inverse "
+            "lie inside the integration-state groups derived from mjSTATE_INTEGRATION + mj_stateElemPtr (+ allocation constants, "
+            "empty stack, function locals, the all-awake sleep bookkeeping; + qacc and — surfaced, _partial — the actuator forces for "
+            "mj_inverse); every member of struct mjData_ is classified.  Hence forward / step / inverse on two mjData with equal "
+            "integration state agree on the state and on every determined output group, whatever the receiver held "
+            "(forward_after_copyState, step_after_copyState).  With mjENBL_SLEEP the analysis shows (forward_sleep_inputs_partial) "
+            "and the oracle confirms that the derived arrays of sleeping trees are latent state: only mj_copyData copies are claimed.",
+    "note": "footprints are per stage function and per field group, hand-written (lean/MjProof/Model/Footprint.lean) and validated only "
+            "dynamically (V1: changed fields ⊆ may-write groups; V2: every non-read group and the free arena filled with junk ⇒ read ∪ "
+            "determined groups bitwise equal) on generated models without flex / plugins / user callbacks; statics reachable only inside "
+            "larger calls (mj_advance, mj_discreteAcc, stack bookkeeping) are validated through the whole-function differentials only. "
+            "Lazily evaluated caches (energy, subtree velocities, rne-post) are compared as flag + (cache if the flag is set); members "
+            "that are meaningful only under a condition (sparse Jacobian index arrays, act_dot with actuation disabled, nidof without "
+            "islands, unused tails of efc_J / wrap arrays) are compared under that condition; diagnostics (timers, warnings, solver "
+            "statistics, maxuse_*, bvh_active), solver scratch (island-ordered vectors, efc_state, contact.H) and addresses are not "
+            "compared; memory-exhaustion paths are outside the model.  Findings reported under stable keys: c01:sleep-latent-state "
+            "(documented upstream), c01:inverse-stale-actuator-force, c01:efc_state-stale-with-islands.",
 }
 
 THEOREMS = [
@@ -734,9 +739,6 @@ def run_models(ctx, info, exe, sf, sig, nmodels, sleep, thorough, stats):
             if len(h.log) <= 1 and h.prev_log:
                 rp = {"note": "died while loading the next model; previous session:", "model": h.prev_log[0][6:],
                       "commands": h.prev_log[1:][-120:], "next_model": mdl.text()}
-                if os.environ.get("C01_DEBUG_DUMP"):
-                    json.dump({"model": h.prev_log[0][6:], "commands": h.prev_log[1:], "next_model": mdl.text()},
-                              open(os.environ["C01_DEBUG_DUMP"], "w"))
             fails.append({"what": "harness died (%s)" % e, "replay": rp})
             h.close()
             h = Harness(exe)
